@@ -1,6 +1,7 @@
 package simrt
 
 import (
+	"context"
 	"sync"
 	"unsafe"
 )
@@ -84,6 +85,11 @@ func Unlock(m *sync.Mutex) {
 		iunlock(&s.mu)
 		if w := s.self(); w != nil {
 			w.unlocked = true
+			if s.cfg.PostUnlockYield {
+				m.Unlock()
+				Yield("post-unlock")
+				return
+			}
 		}
 	}
 	m.Unlock()
@@ -98,6 +104,34 @@ func TryLock(site string, m *sync.Mutex) bool {
 		p := uintptr(unsafe.Pointer(m))
 		ilock(&s.mu)
 		s.getHeld(p).writer = true
+		iunlock(&s.mu)
+	}
+	return ok
+}
+
+// RWTryLock replaces (*sync.RWMutex).TryLock.
+//go:norace
+func RWTryLock(site string, m *sync.RWMutex) bool {
+	Yield(site)
+	ok := m.TryLock()
+	if s := cur(); s != nil && ok {
+		p := uintptr(unsafe.Pointer(m))
+		ilock(&s.mu)
+		s.getHeld(p).writer = true
+		iunlock(&s.mu)
+	}
+	return ok
+}
+
+// RWTryRLock replaces (*sync.RWMutex).TryRLock.
+//go:norace
+func RWTryRLock(site string, m *sync.RWMutex) bool {
+	Yield(site)
+	ok := m.TryRLock()
+	if s := cur(); s != nil && ok {
+		p := uintptr(unsafe.Pointer(m))
+		ilock(&s.mu)
+		s.getHeld(p).readers++
 		iunlock(&s.mu)
 	}
 	return ok
@@ -138,6 +172,14 @@ func RWUnlock(m *sync.RWMutex) {
 			s.dropHeld(h)
 		}
 		iunlock(&s.mu)
+		if w := s.self(); w != nil {
+			w.unlocked = true
+			if s.cfg.PostUnlockYield {
+				m.Unlock()
+				Yield("post-unlock")
+				return
+			}
+		}
 	}
 	m.Unlock()
 }
@@ -303,3 +345,138 @@ func SendVal[T any](_ chan<- T, v T) T { return v }
 // RecvZero returns the zero value of c's element type (helper of the select rewrite).
 //go:norace
 func RecvZero[T any](_ <-chan T) (z T) { return }
+
+// ---------------------------------------------------------------------------
+// sync.Cond (emulated: the real Wait re-locks c.L with a blocking Lock, which is not a
+// cooperative yield point; the wait list is kept by the simulator and the controller
+// chooses which waiter a Signal wakes)
+
+//go:norace
+func unlockLocker(l sync.Locker) {
+	switch m := l.(type) {
+	case *sync.Mutex:
+		Unlock(m)
+	case *sync.RWMutex:
+		RWUnlock(m)
+	default:
+		l.Unlock()
+	}
+}
+
+//go:norace
+func lockLocker(site string, l sync.Locker) {
+	switch m := l.(type) {
+	case *sync.Mutex:
+		Lock(site, m)
+	case *sync.RWMutex:
+		RWLock(site, m)
+	default:
+		l.Lock()
+	}
+}
+
+// CondWait replaces (*sync.Cond).Wait.
+//go:norace
+func CondWait(site string, c *sync.Cond) {
+	s := cur()
+	var w *worker
+	if s != nil {
+		w = s.self()
+	}
+	if w == nil {
+		c.Wait()
+		return
+	}
+	p := uintptr(unsafe.Pointer(c))
+	ch := make(chan struct{})
+	ilock(&s.mu)
+	if s.conds == nil {
+		s.conds = map[uintptr][]chan struct{}{}
+	}
+	s.conds[p] = append(s.conds[p], ch)
+	iunlock(&s.mu)
+	unlockLocker(c.L)
+	BlockBegin(site)
+	<-ch
+	BlockEnd(site)
+	lockLocker(site, c.L)
+}
+
+// CondSignal replaces (*sync.Cond).Signal.
+//go:norace
+func CondSignal(site string, c *sync.Cond) {
+	s := cur()
+	if s == nil {
+		c.Signal()
+		return
+	}
+	if s.self() != nil {
+		Yield(site)
+	}
+	p := uintptr(unsafe.Pointer(c))
+	ilock(&s.mu)
+	l := s.conds[p]
+	if len(l) > 0 {
+		i := s.chooseLocked(kSelect, len(l), 1)
+		close(l[i])
+		s.conds[p] = append(append([]chan struct{}(nil), l[:i]...), l[i+1:]...)
+	}
+	iunlock(&s.mu)
+}
+
+// CondBroadcast replaces (*sync.Cond).Broadcast.
+//go:norace
+func CondBroadcast(site string, c *sync.Cond) {
+	s := cur()
+	if s == nil {
+		c.Broadcast()
+		return
+	}
+	if s.self() != nil {
+		Yield(site)
+	}
+	p := uintptr(unsafe.Pointer(c))
+	ilock(&s.mu)
+	for _, ch := range s.conds[p] {
+		close(ch)
+	}
+	delete(s.conds, p)
+	iunlock(&s.mu)
+}
+
+// ---------------------------------------------------------------------------
+// context.AfterFunc: the callback runs as a worker of its own
+
+// ContextAfterFunc replaces context.AfterFunc.
+//go:norace
+func ContextAfterFunc(site string, ctx context.Context, f func()) func() bool {
+	s := cur()
+	if s == nil {
+		return context.AfterFunc(ctx, f)
+	}
+	w := s.self()
+	if w != nil {
+		Yield(site)
+	}
+	ilock(&s.mu)
+	var id string
+	if w != nil {
+		id = w.id + "c" + itoa(w.ntimer)
+		w.ntimer++
+	} else {
+		id = "xc" + itoa(s.timerSeq)
+		s.timerSeq++
+	}
+	iunlock(&s.mu)
+	return context.AfterFunc(ctx, func() {
+		// on the goroutine the context package created for the callback
+		nw := s.newWorker(id)
+		if nw == nil {
+			return
+		}
+		s.bind(nw)
+		defer s.finish(nw)
+		s.park(nw, "context-callback", wNone, 0)
+		f()
+	})
+}
